@@ -328,7 +328,8 @@ func (d *dateTime) Apply(key string, value interface{}, ctx *rdf.ParsingContext)
 				jen.Qual("time", "Time"),
 				[]jen.Code{
 					jen.Return(
-						jen.Id(codegen.This()).Dot("Format").Call(jen.Qual("time", "RFC3339")),
+						// With the fraction of a second, if there is one: whole seconds are written as before.
+						jen.Id(codegen.This()).Dot("Format").Call(jen.Qual("time", "RFC3339Nano")),
 						jen.Nil(),
 					),
 				}),
